@@ -3,6 +3,9 @@
    Tai(t, off) / Gps(t, off)    zif_local_time on the TAI / GPS zone: off = result - t
    RDiff(a, b, dd, ds, r)       ddiff a b -f %rS printed r; dd, ds = b - a in days and seconds (re-encoding of a, b)
                                 accepted iff r = dd*86400 + ds + LeapsBetween  (|r| < 2^31 by construction of the cases)
+   TaiInv(x, u) / GpsInv(x, u)  zif_utc_time on the TAI / GPS zone: the clock reading x was taken to the UTC instant u; accepted iff
+                                u shown on that clock is x again, or x is the reading of an inserted second (no UTC second has it) and
+                                u is the first second after it
    RAdd(t, n, res)              dadd t +n rs printed res (as <<day, sod>>, sod = 86400 for 23:59:60) *)
 EXTENDS Leaps, Json, IOUtils, TLCExt
 VARIABLE l
@@ -16,7 +19,13 @@ TRDiff == /\ l <= Len(Tr) /\ Ev.e = "RDiff"
           /\ Ev.r = Ev.dd * 86400 + Ev.ds + (TaiOffs(Ev.b) - TaiOffs(Ev.a))
           /\ l' = l + 1 /\ UNCHANGED dummy
 TRAdd == /\ l <= Len(Tr) /\ Ev.e = "RAdd" /\ Ev.res = AddReal(Ev.t, Ev.n) /\ l' = l + 1 /\ UNCHANGED dummy
-TNext == TTai \/ TGps \/ TRDiff \/ TRAdd
+\* plain (civil) addition of n seconds to <<day, sod>>, |n| < 86400
+Plus(t, n) == LET v == t[2] + n IN IF v >= 86400 THEN <<t[1] + 1, v - 86400>> ELSE IF v < 0 THEN <<t[1] - 1, v + 86400>> ELSE <<t[1], v>>
+InvOk(x, u, Offs(_)) == \/ Plus(u, Offs(u)) = x
+                        \/ (Plus(u, Offs(u)) = Plus(x, 1) /\ Offs(u) = Offs(Plus(u, -1)) + 1)
+TTaiInv == /\ l <= Len(Tr) /\ Ev.e = "TaiInv" /\ InvOk(Ev.x, Ev.u, TaiOffs) /\ l' = l + 1 /\ UNCHANGED dummy
+TGpsInv == /\ l <= Len(Tr) /\ Ev.e = "GpsInv" /\ InvOk(Ev.x, Ev.u, GpsOffs) /\ l' = l + 1 /\ UNCHANGED dummy
+TNext == TTai \/ TGps \/ TRDiff \/ TRAdd \/ TTaiInv \/ TGpsInv
 TSpec == TInit /\ [][TNext]_<<dummy, l>>
 Accepted == TLCGet("stats").diameter - 1 = Len(Tr)
 =============================================================================
